@@ -27,6 +27,10 @@ type ExpEvent struct {
 	Meta   bool  // CAS supplied by the caller (*WithMeta): exempt from the ordering clause
 	IsJSON *bool // expected JSON datatype bit, nil = not pinned
 	OpK    string
+	// Optional: a *WithMeta write that re-used the CAS the document already had: C08 speaks of
+	// writes that give a document a *new* CAS, so the event may or may not come (if it comes it
+	// must be faithful)
+	Optional bool
 }
 
 // Run is one executed history.
@@ -425,6 +429,10 @@ func (r *Run) Step(op Op) {
 	if changedCas && res.Err == "" {
 		fam := family(op)
 		ev := ExpEvent{C: op.C, Key: op.Key, St: post, Step: r.step, Meta: fam.meta, OpK: op.K}
+		ev.IsJSON = pinnedJSON(op, post)
+		r.Exp = append(r.Exp, ev)
+	} else if res.Err == "" && family(op).meta && post.Present && p.Present && post.Cas == p.Cas && !post.Equal(p) {
+		ev := ExpEvent{C: op.C, Key: op.Key, St: post, Step: r.step, Meta: true, OpK: op.K, Optional: true}
 		ev.IsJSON = pinnedJSON(op, post)
 		r.Exp = append(r.Exp, ev)
 	} else if changedCas && res.Err != "" {
